@@ -703,8 +703,12 @@ func c19CleanupSpares(r *core.Run, p *core.Program) {
 						cur = true
 					}
 				}
-				if strings.Contains(dc.Cond, "used[") && strings.HasSuffix(dc.Cond, "#1") && !dc.True {
-					used = true
+				// "is the sequence referenced": the comma-ok result of a lookup in the map of sequences in use
+				// (map[uint32]bool, whatever the variable is called)
+				if ex, ok := dc.If.Cond.(*ssa.Extract); ok && ex.Index == 1 && !dc.True {
+					if lk, ok := ex.Tuple.(*ssa.Lookup); ok && lk.CommaOk && an.TypeName(lk.X.Type()) == "map[uint32]bool" {
+						used = true
+					}
 				}
 			}
 			pos := p.Pos(an.InstrPos(c.(ssa.Instruction)))
